@@ -345,7 +345,7 @@ def work_refusal(bins, seed, n):
 
 def run(ctx):
     quick = ctx.tier == "quick"
-    per = 28 if quick else 1500
+    per = 70 if quick else 1800
     for r in core.pmap(work_emit, [(ctx.bins, "%s/%d/e%d" % (ctx.prop, ctx.seed, i), per) for i in range(32)]):
         ctx.merge_counts(r["st"])
         ctx.evaluations += r["st"]["emit_runs"] + r["st"]["piped_renderings"] * 2
@@ -354,7 +354,7 @@ def run(ctx):
             ctx.refute(sig, why, case)
         for s in r["samples"][:1]:
             ctx.sample(s, cap=3)
-    pm = 60 if quick else 2500
+    pm = 180 if quick else 3000
     for r in core.pmap(work_refusal, [(ctx.bins, "%s/%d/r%d" % (ctx.prop, ctx.seed, i), pm) for i in range(32)]):
         ctx.merge_counts(r["st"])
         ctx.evaluations += r["st"]["structural_mutants"] + r["st"]["textual_mutants"]
